@@ -22,7 +22,7 @@ EVS = {'CTOR': 8, 'SSUCC': 9, 'DTOR': 10}
 #   cc< ID, R... >         ... from change_control< quiet control >
 #   ea< ID, R... > / da< ID, R... >   enable_action / disable_action
 #   state< i, R... >       the state rule with vstate<i>;  action< T, R... >, control< R... > the rule forms
-PSEUDO = ('cs', 'csd', 'css', 'ca', 'cas', 'casd', 'cc', 'ea', 'da')   # ...d: with a state that is only default-constructible
+PSEUDO = ('cs', 'csd', 'css', 'ca', 'cas', 'casd', 'cc', 'ea', 'da', 'cas_cs', 'cas_da', 'ca_cs')   # x_y: switch x whose NEW action class carries switch y for the SAME rule   # ...d: with a state that is only default-constructible
 ACTNAME = {1: 'actA', 2: 'actB'}
 
 
@@ -78,6 +78,26 @@ class Gen13(evgen.EvGen):
                         '  if (x.r == 1 && a) sv(%d, %d, x.pos, ost);\n  sv(%d, %d, 0, 0); return x;' % (EVS['CTOR'], i, i, t, f, EVS['SSUCC'], i, EVS['DTOR'], i))
             return ('  int ost = cx_st, oa = cx_act; sv(%d, %d, p, ost); cx_st = %d; cx_act = %d; out_t x = %s(p, a); cx_st = ost; cx_act = oa;\n'
                     '  if (x.r == 1 && a) sv(%d, %d, x.pos, ost);\n  sv(%d, %d, 0, 0); return x;' % (EVS['CTOR'], i, i, t, f, EVS['SSUCC'], i, EVS['DTOR'], i))
+        if n == 'cas_cs':
+            # Old< R > : change_action_and_state< actB, vstate<i> > ;  actB< R > : change_state< vstate<j> >
+            t, i, j = 2, ival(a[0]), ival(a[1])
+            f = s.fn(s.named_of(e, 2))        # actB< R > is the inner switch: R has no apply0 of its own
+            return ('  int ost = cx_st, oa = cx_act; sv(%d, %d, p, ost); sv(%d, %d, p, %d); cx_st = %d; cx_act = %d; out_t x = %s(p, a); cx_st = ost; cx_act = oa;\n'
+                    '  if (x.r == 1 && a) sv(%d, %d, x.pos, %d);\n  sv(%d, %d, 0, 0);\n'
+                    '  if (x.r == 1 && a) sv(%d, %d, x.pos, ost);\n  sv(%d, %d, 0, 0); return x;'
+                    % (EVS['CTOR'], i, EVS['CTOR'], j, i, j, t, f, EVS['SSUCC'], j, i, EVS['DTOR'], j, EVS['SSUCC'], i, EVS['DTOR'], i))
+        if n == 'cas_da':
+            # Old< R > : change_action_and_state< actB, vstate<i> > ;  actB< R > : disable_action
+            t, i = 2, ival(a[0])
+            f = s.fn(s.named_of(e, 1))
+            return ('  int ost = cx_st, oa = cx_act; sv(%d, %d, p, ost); cx_st = %d; cx_act = %d; out_t x = %s(p, 0); cx_st = ost; cx_act = oa;\n'
+                    '  if (x.r == 1 && a) sv(%d, %d, x.pos, ost);\n  sv(%d, %d, 0, 0); return x;' % (EVS['CTOR'], i, i, t, f, EVS['SSUCC'], i, EVS['DTOR'], i))
+        if n == 'ca_cs':
+            # Old< R > : change_action< actB > ;  actB< R > : change_state< vstate<j> >
+            t, j = 2, ival(a[0])
+            f = s.fn(s.named_of(e, 1))
+            return ('  int ost = cx_st, oa = cx_act; sv(%d, %d, p, ost); cx_st = %d; cx_act = %d; out_t x = %s(p, a); cx_st = ost; cx_act = oa;\n'
+                    '  if (x.r == 1 && a) sv(%d, %d, x.pos, ost);\n  sv(%d, %d, 0, 0); return x;' % (EVS['CTOR'], j, j, t, f, EVS['SSUCC'], j, EVS['DTOR'], j))
         if n == 'cc':
             f = s.fn(s.named_of(e, 0))
             return '  int oq = cx_quiet; cx_quiet = 1; out_t x = %s(p, a); cx_quiet = oq; return x;' % f
@@ -97,15 +117,29 @@ def cxx(e, act, specs):
     """C++ type text; collects the action-class specialisations that attach the switches"""
     n, a = e.name, e.args
     if n in PSEUDO:
-        skip = {'cs': 1, 'csd': 1, 'css': 1, 'ca': 1, 'cas': 2, 'casd': 2, 'cc': 0, 'ea': 0, 'da': 0}[n]
+        skip = {'cs': 1, 'csd': 1, 'css': 1, 'ca': 1, 'cas': 2, 'casd': 2, 'cc': 0, 'ea': 0, 'da': 0, 'cas_cs': 2, 'cas_da': 1, 'ca_cs': 1}[n]
         inner_act = act
         if n in ('ca', 'cas', 'casd'):
             inner_act = ival(a[0])
+        if n in ('cas_cs', 'cas_da', 'ca_cs'):
+            inner_act = 2
         if act == 0:
             raise ValueError('switch attached while no action class is in force')
         body = ', '.join(cxx(x, inner_act, specs) for x in a[skip + 1:])
         ty = 'named< %d, %s >' % (ival(a[skip]), body)
         an = ACTNAME[act]
+        if n in ('cas_cs', 'cas_da', 'ca_cs'):
+            if act != 1:
+                raise ValueError('chained switches are generated for the base action class only')
+            outer = {'cas_cs': 'tao::pegtl::change_action_and_state< actB, vf::vstate< %d > >' % ival(a[0]),
+                     'cas_da': 'tao::pegtl::change_action_and_state< actB, vf::vstate< %d > >' % ival(a[0]),
+                     'ca_cs': 'tao::pegtl::change_action< actB >'}[n]
+            inner = {'cas_cs': 'tao::pegtl::change_state< vf::vstate< %d > >' % ival(a[1]) if n == 'cas_cs' else '',
+                     'cas_da': 'tao::pegtl::disable_action',
+                     'ca_cs': 'tao::pegtl::change_state< vf::vstate< %d > >' % ival(a[0])}[n]
+            specs.append('template<> struct actA< %s > : %s {};' % (ty, outer))
+            specs.append('template<> struct actB< %s > : %s {};' % (ty, inner))
+            return ty
         if n == 'cs':
             base = 'tao::pegtl::change_state< vf::vstate< %d > >' % ival(a[0])
         elif n == 'csd':
@@ -202,6 +236,9 @@ GRAMMARS = [
     ('state_rule_default', 'named< 0, stated< 1, named< 1, %s > >, at< stated< 2, %s > >, %s >' % (S0, S1, S2)),
     ('cas_default', 'named< 0, not_at< casd< 2, 1, 1, %s > >, casd< 2, 2, 2, %s >, %s >' % (S0, S1, S2)),
     ('change_state_in_at', 'named< 0, at< cs< 1, 1, %s > >, cs< 2, 2, %s >, %s >' % (S0, S0, S1)),
+    ('chain_cas_cs', 'named< 0, cas_cs< 1, 2, 1, %s, %s >, %s >' % (S0, S1, S2)),
+    ('chain_cas_da', 'named< 0, cas_da< 1, 1, %s, %s >, %s >' % (S0, S1, S2)),
+    ('chain_ca_cs', 'named< 0, ca_cs< 1, 1, %s, %s >, %s >' % (S0, S1, S2)),
     ('nested_switches', 'named< 0, cs< 1, 1, ca< 2, 2, %s >, %s >, %s >' % (S0, S1, S2)),
 ]
 
@@ -228,7 +265,7 @@ def plan(ctx):
             calls.append('#if !defined(VF_SPLIT) || defined(V_%s)\n  cx_act = 1; cx_st = 9; cx_quiet = 0; ev_reset_spec(); e = %s(sp_start, %d); ASSUME(e.r != 4); ASSUME(ev_nspec <= EV_MAX);\n'
                          '  ev_reset_real(); w_%s_%s(sp_buf, sp_n, sp_start, o); check_variant("", o, e, %d); ev_compare();\n#endif' % (m, fn, a, name, m, req))
         reach = []
-        if 'state' in text or 'cs<' in text or 'cas<' in text or 'csd<' in text or 'casd<' in text:
+        if 'state' in text or 'cs<' in text or 'cas<' in text or 'csd<' in text or 'casd<' in text or 'cas_' in text or 'ca_cs' in text:
             reach.append('  REACH(e.r == 1 && ev_nspec >= 6, "scoped rule matched");')
         h = ctx.write('h_%s.c' % name, HARNESS % {'N': N, 'evmax': evmax, 'spec': g.text(), 'calls': '\n'.join(calls), 'reach': '\n'.join(reach)})
         for m in MODES:
